@@ -257,12 +257,30 @@ func c07StoreIndependent(c *Ctx) {
 		}
 		return false
 	}
+	// parameters of the round that are fixed once key generation is over (the group polynomial, the registered keys,
+	// the threshold, the round id) are not "the state the round is in when the message arrives": checking an announced
+	// signature against the group key, say, keeps every valid reconstruction whenever it arrives
+	roundConstant := func(x ssa.Value) bool {
+		ld, ok := x.(*ssa.UnOp)
+		if !ok {
+			return false
+		}
+		fa, ok := ld.X.(*ssa.FieldAddr)
+		if !ok || ssax.FieldOf(fa) == nil {
+			return false
+		}
+		switch ssax.FieldOf(fa).Name() {
+		case "PubPolyBz", "PubKeys", "IDs", "Threshold", "DkgId", "DKGProposalPayload":
+			return true
+		}
+		return false
+	}
 	dep := func(v ssa.Value) bool {
 		// (the outcome of a lookup or of the signature verification — an error value — is not the round's state)
 		if v != nil && v.Type().String() == "error" {
 			return false
 		}
-		return v != nil && derivesFrom(v, func(x ssa.Value) bool { return stateTyped(x) || clock(x) }, 0, map[ssa.Value]bool{})
+		return v != nil && derivesFromExcept(v, func(x ssa.Value) bool { return stateTyped(x) || clock(x) }, roundConstant, 0, map[ssa.Value]bool{})
 	}
 	// (a) no branch of processSignature tests the round's state or the clock
 	bad := ""
@@ -427,4 +445,37 @@ func c07NoSilentSkip(c *Ctx) {
 	}
 	r.Check(bad == "" && nAnn >= 2, "C07/R8", "node.processMessage:no-silent-skip", "apart from the two announcement events, success is returned only after the machine was given the event", c.Pos(fn.Pos()),
 		sprintf("the success return at %s is reachable without Do(message.Event) and outside the announcement cases (%d announcement / dead-round cases recognised): a message skipped this way is never applied on this node", bad, len(annEdges)))
+}
+
+
+// derivesFromExcept is derivesFrom with a barrier: the walk does not continue through values satisfying stop.
+func derivesFromExcept(v ssa.Value, pred, stop func(ssa.Value) bool, depth int, seen map[ssa.Value]bool) bool {
+	if v == nil || seen[v] || depth > 12 {
+		return false
+	}
+	seen[v] = true
+	if stop(v) {
+		return false
+	}
+	if pred(v) {
+		return true
+	}
+	if al, ok := v.(*ssa.Alloc); ok && al.Referrers() != nil {
+		for _, ref := range *al.Referrers() {
+			if st, ok := ref.(*ssa.Store); ok && st.Addr == ssa.Value(al) && derivesFromExcept(st.Val, pred, stop, depth+1, seen) {
+				return true
+			}
+		}
+		return false
+	}
+	in, ok := v.(ssa.Instruction)
+	if !ok {
+		return false
+	}
+	for _, op := range in.Operands(nil) {
+		if op != nil && *op != nil && derivesFromExcept(*op, pred, stop, depth+1, seen) {
+			return true
+		}
+	}
+	return false
 }
